@@ -15,6 +15,7 @@ package verifchecks
 import (
 	"encoding/binary"
 	"encoding/json"
+	"errors"
 	"fmt"
 	"os"
 	"os/exec"
@@ -34,6 +35,7 @@ import (
 	"github.com/mimiro-io/datahub/internal/server"
 	"github.com/mimiro-io/datahub/internal/service/entity"
 	"github.com/mimiro-io/datahub/internal/service/namespace"
+	"github.com/mimiro-io/datahub/internal/verifhook"
 	kit "github.com/mimiro-io/datahub/internal/verifkit"
 )
 
@@ -687,6 +689,27 @@ func (g *c13M) apply(op c13Op) {
 			}
 			g.in[op.DS][u] = true
 		}
+	case "failpost":
+		// the write that would persist the namespace table fails once (storage refuses it): the request
+		// that introduced the namespace is refused; whatever the hub answers afterwards - to the same
+		// request sent again, to readers of the context, after a restart - is subject to the same rules
+		n := 0
+		verifhook.SetFault("store.object", func(int) error {
+			if n == 0 && c13InStack(".AssertPrefixMappingForExpansion") {
+				n++
+				return errors.New("verif: injected storage failure while persisting the namespace table")
+			}
+			return nil
+		})
+		err := c13Post(g.h, op)
+		verifhook.SetFault("store.object", nil)
+		if n == 0 {
+			g.f.Fatalf("VERIF-INFRA the request with a new namespace did not reach the namespace table write")
+		}
+		if err == nil {
+			g.fail("FAILED-PERSIST-ACCEPTED the namespace table could not be stored, the request that introduced the namespace was answered with success all the same")
+		}
+		g.cls["namespace-persist-failure"] = true
 	case "restart":
 		g.h.Restart()
 		g.epoch++
@@ -889,6 +912,20 @@ func TestVerif_C13_bijection(t *testing.T) {
 					t.Skip("restart thinned out")
 				}
 				g.apply(c13Op{K: "restart"})
+			},
+			"failpost": func(t *rapid.T) {
+				if rapid.IntRange(0, 3).Draw(t, "do") != 0 {
+					t.Skip("persist failure thinned out")
+				}
+				fresh++
+				e := c13E{NS: fmt.Sprintf("http://ex.org/gen/%d/", fresh), Local: "x", Form: "full"}
+				op := c13Op{K: "failpost", DS: rapid.SampledFrom([]string{"a", "b"}).Draw(t, "ds"), Via: rapid.SampledFrom([]string{"http", "parser", "ctx"}).Draw(t, "via"), Ents: []c13E{e}}
+				g.apply(op)
+				if rapid.Bool().Draw(t, "retry") {
+					// the client sends the same request again; now the storage works
+					op.K = "post"
+					g.apply(op)
+				}
 			},
 			"crash": func(t *rapid.T) {
 				if rapid.IntRange(0, 3).Draw(t, "do") != 0 {
@@ -1430,4 +1467,32 @@ func TestVerif_C13_burst(t *testing.T) {
 		kit.S().Case(desc, true, fmt.Sprintf("burst-asserters-%d", k), fmt.Sprintf("procs-%d", procs))
 		kit.S().AddExtra("burst_rounds_with_restart", rounds)
 	})
+}
+
+// c13InStack: some function on the calling goroutine's stack ends with suffix.
+func c13InStack(suffix string) bool {
+	pcs := make([]uintptr, 48)
+	frames := runtime.CallersFrames(pcs[:runtime.Callers(2, pcs)])
+	for {
+		fr, more := frames.Next()
+		if strings.HasSuffix(fr.Function, suffix) {
+			return true
+		}
+		if !more {
+			return false
+		}
+	}
+}
+
+// F36 (fixed): when the namespace table could not be stored (the storage refused
+// the write), the new prefix stayed in memory: it was served to context readers
+// and returned to the next caller without ever being stored, and after the next
+// start the prefix was given to another namespace.
+func TestVerifProbe_F36(t *testing.T) {
+	defer kit.CleanupScratch()
+	g := newC13M(t)
+	defer g.close()
+	g.apply(c13Op{K: "failpost", DS: "a", Via: "http", Ents: []c13E{{NS: "http://ex.org/gen/1/", Local: "x", Form: "full"}}})
+	g.apply(c13Op{K: "restart"})
+	g.apply(c13Op{K: "post", DS: "a", Via: "http", Ents: []c13E{{NS: "http://ex.org/gen/2/", Local: "e0", Form: "full"}}})
 }
